@@ -1522,6 +1522,80 @@ def find_calls(t, suffix):
     return [x for x in term_walk(t) if isinstance(x, tuple) and x and x[0] == 'call' and x[1].endswith(suffix)]
 
 
+def prefix_count(sym, lv):
+    """`let mut n = 0; for x in SRC { if !P(x) { break } n += 1 }` - the loop form of `SRC.take_while(P).count()`.
+    lv = ('loopvar', local, name, head).  returns dict(src, elem test literals of counting iterations, of leaving iterations)"""
+    from . import panics
+    if not (isinstance(lv, tuple) and lv and lv[0] == 'loopvar'):
+        raise Lost('not a loop counter')
+    body = sym.body
+    sym.loop_info()
+    comp = sym._loop_of_head.get(lv[3])
+    if not comp:
+        raise Lost('loop not found')
+    ds = panics.defs_of(body, lv[1])
+    inits = [d for d in ds if d[2] not in comp]
+    steps = [d for d in ds if d[2] in comp]
+    if len(inits) != 1 or not (inits[0][0] == 'assign' and inits[0][1]['k'] == 'use' and inits[0][1]['op'].get('k') == 'const' and inits[0][1]['op'].get('int') == 0):
+        raise Lost('the counter does not start at 0')
+    for d in steps:
+        good = False
+        if d[0] == 'assign' and d[1]['k'] == 'use' and d[1]['op'].get('k') in ('move', 'copy'):
+            pl = d[1]['op']['place']
+            if len(pl['p']) == 1 and isinstance(pl['p'][0], dict) and pl['p'][0].get('n') == '0':
+                dd = panics.defs_of(body, pl['l'])
+                if len(dd) == 1 and dd[0][0] == 'assign' and dd[0][1]['k'] == 'bin' and dd[0][1]['op'] == 'AddWithOverflow':
+                    a_, b_ = dd[0][1]['a'], dd[0][1]['b']
+                    good = a_.get('k') in ('copy', 'move') and a_['place']['l'] == lv[1] and not a_['place']['p'] and b_.get('k') == 'const' and b_.get('int') == 1
+        if not good:
+            raise Lost('the counter is not advanced by exactly one')
+    if not steps:
+        raise Lost('the counter is never advanced')
+    step_blocks = {d[2] for d in steps}
+    src = None
+    site = None
+    counting, leaving = [], []
+    for q in sym.paths:
+        if lv[3] not in q.blocks:
+            continue
+        inloop = [c for c in q.conds if c[2] is not None and c[2] in comp]
+        nexts = [c for c in inloop if literal(c)[0] == 'variant' and literal(c)[1][0] == 'call' and literal(c)[1][1].split('::')[-1] == 'next']
+        if not nexts or option_is_some(literal(nexts[0])[2]) is not True:
+            continue
+        call = literal(nexts[0])[1]
+        if site is None:
+            site = call[3]
+            it = strip_transparent(call[2][0])
+            while isinstance(it, tuple) and it and it[0] == 'call' and it[1].split('::')[-1] in ('into_iter', 'iter'):
+                it = strip_transparent(it[2][0])
+            src = it
+        elif call[3] != site:
+            raise Lost('two iterators drive the counting loop')
+        lits = [c for c in inloop if c is not nexts[0]]
+        stepped = any(bb in step_blocks for bb in q.blocks)
+        # does the path stay in the loop after the element test?
+        last_in = max(i for i, bb in enumerate(q.blocks) if bb in comp)
+        stays = (q.end == 'loop' and last_in == len(q.blocks) - 1)
+        if stepped and stays:
+            counting.append(lits)
+        elif not stepped and not stays:
+            leaving.append(lits)
+        elif stepped and not stays:
+            raise Lost('the loop is left after counting an element')
+        else:
+            raise Lost('an element is skipped without being counted')
+    if src is None or not counting:
+        raise Lost('no counting iteration')
+
+    def is_elem(t):
+        t = strip_transparent(t)
+        while isinstance(t, tuple) and t and t[0] in ('ref', 'deref'):
+            t = strip_transparent(t[1])
+        return (isinstance(t, tuple) and len(t) == 3 and t[0] == 'field' and t[2] == '0' and isinstance(t[1], tuple) and t[1][0] == 'downcast' and t[1][2] == 'Some'
+                and isinstance(t[1][1], tuple) and t[1][1][0] == 'call' and t[1][1][3] == site)
+    return {'src': src, 'counting': counting, 'leaving': leaving, 'is_elem': is_elem}
+
+
 def loop_root(t):
     """the loop-carried collection behind a term: `mutated(.. mutated(loopvar) ..)` (a path that leaves the loop right
     after its last push) -> the loopvar; else None"""
